@@ -13,13 +13,18 @@ THEOREMS = [
     "Cog.Sem.JSOut.C12_objects_and_fields_present",
     "Cog.Sem.JSOut.C12_objects_own_definition_partial",
     "Cog.Sem.JSOut.C12_carried_over",
+    "Cog.Sem.JSOut.C12_constraint_semantics_carried",
+    "Cog.Sem.JSOut.C12_values_validate_node_partial",
     "Cog.Sem.JSOut.C12_values_validate_partial",
-    "Cog.Sem.JSOut.C12_values_validate_same_ir_partial",
     "Cog.Sem.JSOut.C12_values_validate_counterexample_any",
     "Cog.Sem.JSOut.C12_values_validate_counterexample_required_nullable",
     "Cog.Sem.JSOut.C12_values_validate_counterexample_same_name",
+    "Cog.Sem.JSOut.C12_foreign_definition_overwritten",
     "Cog.Sem.JSOut.C12_carried_over_counterexample_constant_reference",
+    "Cog.Sem.JSOut.C12_intersection_emitted_empty",
     "Cog.Sem.JSOut.C12_emission_counterexample_foreign_cycle",
+    "Cog.Sem.JSOut.describes_sound",
+    "Cog.Sem.JSOut.emitDefs_closed",
 ]
 
 
@@ -244,9 +249,7 @@ class Run:
     def finish(self, stream):
         c = self.c
         for (r, model, why) in self.dis[:3]:
-            text = r[0] + "\t" + (r[2] if len(r) > 2 else "")
-            if c.match_known(text):
-                continue
+            # a disagreement between model and implementation is never covered by a known finding
             c.violation({"kind": "correspondence-broken", "stream": stream, "broken": why, "request": r[0][:20000],
                          "impl": r[1][:20000], "model": model[:20000], "oracle": r[2] if len(r) > 2 else "",
                          "n_disagreements": len(self.dis)}, found_input=self.reported > 0)
@@ -336,6 +339,10 @@ def main():
     run_stream(c, hb, "c12-ir", n=400 if quick else 6000, seed=c.seed, tier=c.tier, malformed=1)
     n, docs = (16, 24) if quick else (300, 40)
     run_stream(c, hb, "c12-lab", n=n, docs=docs, seed=c.seed, tier=c.tier)
+    # `any` members poison most documents of the default batch: a second batch without them so that the
+    # hypotheses of C12_values_validate_partial hold for most documents
+    c.cov["c12"]["c12-lab(default)"] = c.cov["c12"].pop("c12-lab")
+    run_stream(c, hb, "c12-lab", n=n // 2, docs=docs, seed=c.seed + 1000, tier=c.tier, switches="-any")
     c.finish("cd /verif/lean && lake build Cog.Props.C12 drv && lake env lean <#print axioms of the C12 theorems>",
              "pinned sets (one per recorded finding) + one watchdog run of the non-terminating emission; random multi-package IR (every Kind, cross-package references, same-named objects) through the jennies vs the Lean emitter; Src terms x 3 input formats through the real pipeline: emitted JSON Schema / OpenAPI files vs the Lean emitter, independent loaders, $ref / presence / carried-over oracles, and every source-valid document re-encoded by real generated Go code validated against the emitted schema (santhosh + python jsonschema vs Lean jsValid; hypotheses of the partial theorem evaluated per document). non-trivial = emitted document > 600 bytes that the model reproduces, or validated document with >= 6 nested values")
 
